@@ -3,6 +3,8 @@ package main
 import (
 	"encoding/json"
 	"flag"
+	"strings"
+	"time"
 
 	ucfg "github.com/elastic/go-ucfg"
 )
@@ -41,6 +43,8 @@ func varShareReplay(args []string) int {
 			S   json.RawMessage `json:"s"`
 			D   json.RawMessage `json:"d"`
 			All json.RawMessage `json:"all"`
+			One json.RawMessage `json:"one"`
+			Two json.RawMessage `json:"two"`
 		}
 		json.Unmarshal(c.Exp.Ideal, &e)
 		text := c.E.render()
@@ -50,6 +54,11 @@ func varShareReplay(args []string) int {
 			want json.RawMessage
 		}
 		var steps []step
+		type pairErr struct {
+			want string
+			err  error
+		}
+		var pairErrs []pairErr
 		panicked, msg := guard(func() {
 			mk := func() (*ucfg.Config, *ucfg.Config) {
 				s := ucfg.MustNewFrom(map[string]interface{}{"host": "S", "data": text}, base...)
@@ -83,10 +92,59 @@ func varShareReplay(args []string) int {
 			l := ucfg.MustNewFrom(map[string]interface{}{"host": "L", "primary": t, "all": "${primary.data} ${backup.data}"}, base...)
 			r := ucfg.MustNewFrom(map[string]interface{}{"host": "R", "backup": t}, base...)
 			steps = append(steps, step{"L.all with Env(R)", vsRead(l, "all", append(append([]ucfg.Option{}, base...), ucfg.Env(r))...), e.All})
+			// two copies of the template merged under one root; ONE Unpack reads the first as a string and fails to
+			// convert the second to a duration (and the other way round): the error names the copy that failed (C14)
+			pair := ucfg.New()
+			meta := ucfg.MetaData(ucfg.Meta{Source: "pair.yml"})
+			for _, part := range []interface{}{map[string]interface{}{"host": "H"}, map[string]interface{}{"one": t}, map[string]interface{}{"two": t}} {
+				if err := pair.Merge(part, append(append([]ucfg.Option{}, base...), meta)...); err != nil {
+					panic(err)
+				}
+			}
+			steps = append(steps, step{"pair one.data", vsRead(pair, "one.data", base...), e.One})
+			steps = append(steps, step{"pair two.data", vsRead(pair, "two.data", base...), e.Two})
+			var two struct {
+				Ok *string `json:"ok"`
+			}
+			json.Unmarshal(e.Two, &two)
+			if two.Ok != nil {
+				if _, perr := time.ParseDuration(*two.Ok); perr != nil {
+					type sdata struct {
+						Data string `config:"data"`
+					}
+					type ddata struct {
+						Data time.Duration `config:"data"`
+					}
+					var sd struct {
+						One sdata `config:"one"`
+						Two ddata `config:"two"`
+					}
+					var ds struct {
+						One ddata `config:"one"`
+						Two sdata `config:"two"`
+					}
+					pairErrs = append(pairErrs, pairErr{"two.data", pair.Unpack(&sd, base...)}, pairErr{"one.data", pair.Unpack(&ds, base...)})
+				}
+			}
 		})
 		if panicked {
 			rep.violate("varshare-panic", raw, msg, "returns", "")
 			return
+		}
+		for _, pe := range pairErrs {
+			ue, isU := pe.err.(ucfg.Error)
+			switch {
+			case pe.err == nil:
+				rep.violate("varshare-pair", raw, "Unpack returned nil", "an error naming "+pe.want, "the text of the setting is no duration")
+			case isU && strings.HasPrefix(text, "${") && strings.HasSuffix(text, "}") && !strings.ContainsAny(text[2:len(text)-1], "${}:") && ue.Path() == text[2:len(text)-1]:
+				// a plain reference stands for the value of ANOTHER setting: the text that does not convert is that
+				// setting's, and the error may name it (the property does not say which of the two is "the" setting)
+				rep.okIdeal()
+			case !isU || ue.Path() != pe.want:
+				rep.violate("varshare-pair", raw, pe.err.Error(), "an error naming "+pe.want, "the error names another copy of the setting")
+			default:
+				rep.okIdeal()
+			}
 		}
 		for _, st := range steps {
 			st := st
